@@ -3495,6 +3495,16 @@ func (t *Topic) replyLeaveUnsub(sess *Session, msg *ClientComMessage, asUid type
 // evictUser evicts all given user's sessions from the topic and clears user's cached data, if appropriate.
 func (t *Topic) evictUser(uid types.Uid, unsub bool, skip string) {
 	now := types.TimeNow()
+	// If the user is a party to a call in progress, the eviction ends the call
+	// just like the party's session leaving the topic would.
+	if t.currentCall != nil {
+		for _, p := range t.currentCall.parties {
+			if p.uid == uid {
+				t.terminateCallInProgress(false)
+				break
+			}
+		}
+	}
 	pud, ok := t.perUser[uid]
 
 	// Detach user from topic
